@@ -18,6 +18,9 @@ Around(v) == {Sub(v, One), v, Add(v, One)}
 Sqrt63 == D(<<"3","0","3","7","0","0","0","4","9","9">>)                     \* floor(sqrt(2^63))
 Third63 == DivFloor(TwoTo63, FromInt(3))                                      \* floor(2^63 / 3); one more times 3 is 2^63 + 1
 Alt01 == DivFloor(Sub(TwoTo64, One), FromInt(3))                              \* 0x5555555555555555
+\* 107 times this is 2^63 + 61, while the nearest double of this operand is 7 less: the double-precision product of the
+\* two is below the overflow threshold the reference describes although the exact product does not fit
+RoundsDown == D(<<"8","6","1","9","9","7","3","8","6","6","2","1","9","4","1","6","7">>)
 Nibbles == D(<<"1","3","1","1","7","6","8","4","6","7","4","6","3","7","9","0","3","2","0">>)   \* 0x123456789abcdef0
 
 QuickGrid == { v \in
@@ -27,7 +30,7 @@ QuickGrid == { v \in
   \cup PlusMinus({Add(Sqrt63, One)}) \cup {Sqrt63}
   \cup {Pow2(52), Pow2(53), Add(Pow2(53), One), Neg(Add(Pow2(53), One))}
   \cup {Sub(Pow2(62), One), Pow2(62), Neg(Pow2(62)), Sub(Neg(Pow2(62)), One)}
-  \cup {Add(Third63, One)}
+  \cup {Add(Third63, One), FromInt(107), RoundsDown}
   \cup {MaxInt64, Sub(MaxInt64, One), Neg(MaxInt64), MinInt64, Sub(TwoTo63, FromInt(1024))}
   \cup {Alt01, BitNot(Alt01), Nibbles} : Fits64(v) }
 
@@ -36,7 +39,7 @@ ThoroughGrid == { v \in QuickGrid
   \cup UNION {PlusMinus(Around(Pow2(k))) : k \in {31, 32, 52, 53, 62, 63}}
   \cup PlusMinus({Sqrt63, Add(Sqrt63, One), Third63, Add(Third63, One)})
   \cup PlusMinus({Sub(MaxInt64, One), Sub(TwoTo63, FromInt(1024)), Sub(TwoTo63, FromInt(1025)), Sub(TwoTo63, FromInt(4096)), Sub(TwoTo63, FromInt(4097))})
-  \cup {Add(MinInt64, One), Add(MinInt64, Two)}
+  \cup {Add(MinInt64, One), Add(MinInt64, Two), FromInt(-107), Neg(RoundsDown)}
   \cup PlusMinus({D(<<"1","0","0","0","0","0","0","0","0","7">>), Pow2(16), Pow2(48), Sub(Pow2(48), One)})
   : Fits64(v) }
 
